@@ -153,7 +153,10 @@ class Run:
             try:
                 cex = fn()
             except Exception as e:
+                # the bounded part of this check could not run at all (e.g. the real code does not build): the check has not looked where
+                # it says it looks, so it does not answer PASS
                 cex = {"found": False, "note": "exploration failed to run: %r" % (e,)}
+                self.undecided.append("bounded exploration `%s` failed to run: %s" % (name, str(e)[-300:].replace('\n', ' ')))
             explored.add(name)
             self.extra.setdefault("bounded_exploration_not_counted", []).append({"name": name, "found": bool(cex and cex.get("found")), "note": (cex or {}).get("note") or (cex or {}).get("verdict")})
             if cex and cex.get("findings") is not None:
